@@ -192,7 +192,7 @@ fn c01(tier: &str, thorough: bool) -> i32 {
     let o = Oracles { model: true, probes: true, refusal: false, spec: false, reopen: false };
     let mut tot = (0u64, 0u64);
     for v in [3u16, 4] {
-        add_bfs(&ctx, &mut tot, "tree", &tree_bfs_cfg(v, if thorough { 6 } else { 4 }, o, 0));
+        add_bfs(&ctx, &mut tot, "tree", &tree_bfs_cfg(v, if thorough { 5 } else { 4 }, o, 0));
         add_bfs(&ctx, &mut tot, "tree+bursts", &tree_bfs_cfg(v, if thorough { 4 } else { 3 }, o, if thorough { 3 } else { 2 }));
         add_bfs(&ctx, &mut tot, "flat siblings", &flat_bfs_cfg(v, 5, thorough, o));
         let sizes = if thorough { sizes_thorough(v) } else { sizes_quick(v) };
@@ -221,7 +221,7 @@ fn c02(tier: &str, thorough: bool) -> i32 {
     let o = Oracles { model: true, probes: false, refusal: false, spec: false, reopen: true };
     let mut tot = (0u64, 0u64);
     for v in [3u16, 4] {
-        add_bfs(&ctx, &mut tot, "tree", &tree_bfs_cfg(v, if thorough { 6 } else { 4 }, o, 0));
+        add_bfs(&ctx, &mut tot, "tree", &tree_bfs_cfg(v, if thorough { 5 } else { 4 }, o, 0));
         add_bfs(&ctx, &mut tot, "flat siblings", &flat_bfs_cfg(v, 5, thorough, o));
         let sizes = if thorough { sizes_thorough(v) } else { sizes_quick(v) };
         let a = DataAlpha {
@@ -288,7 +288,7 @@ fn c03(tier: &str, thorough: bool) -> i32 {
     let o = Oracles { model: true, probes: false, refusal: false, spec: true, reopen: false };
     let mut tot = (0u64, 0u64);
     for v in [3u16, 4] {
-        add_bfs(&ctx, &mut tot, "tree", &tree_bfs_cfg(v, if thorough { 6 } else { 4 }, o, 0));
+        add_bfs(&ctx, &mut tot, "tree", &tree_bfs_cfg(v, if thorough { 5 } else { 4 }, o, 0));
         add_bfs(&ctx, &mut tot, "flat siblings", &flat_bfs_cfg(v, 5, thorough, o));
         let sizes = if thorough { sizes_thorough(v) } else { sizes_quick(v) };
         let a = DataAlpha {
@@ -341,7 +341,7 @@ fn c10(tier: &str, thorough: bool) -> i32 {
     let o = Oracles { model: true, probes: false, refusal: true, spec: false, reopen: false };
     let mut tot = (0u64, 0u64);
     for v in [3u16, 4] {
-        let mut cfg = tree_bfs_cfg(v, if thorough { 6 } else { 4 }, o, 0);
+        let mut cfg = tree_bfs_cfg(v, if thorough { 5 } else { 4 }, o, 0);
         // invalid names / escaping paths as extra refused calls at every state
         for bad in ["/a:b", "/B/x!", "/..", "/B/../../a", "/toolongname_toolongname_toolongname_x", "/B/q\\r"] {
             cfg.ops.push(Op::CreateStorage(bad.into()));
@@ -611,7 +611,7 @@ fn c07(tier: &str, thorough: bool) -> i32 {
     let mut seqs = 0u64;
     let mut acts = 0u64;
     for v in [3u16, 4] {
-        let runs: Vec<(&[&str], usize, bool)> = if thorough { vec![(&["a", "b", "c", "d"], 3, true), (&["a", "b", "c"], 4, false)] } else { vec![(&["a", "b", "c"], 3, false)] };
+        let runs: Vec<(&[&str], usize, bool)> = if thorough { if v == 3 { vec![(&["a", "b", "c", "d"], 3, false), (&["a", "b", "c"], 3, true)] } else { vec![(&["a", "b", "c"], 3, true)] } } else { vec![(&["a", "b", "c"], 3, false)] };
         for (names, depth, rich) in runs {
             let st = crate::e1h::explore(ctx, v, names, depth, rich, 2);
             ctx.note(format!("v{} names={:?} depth={} rich={}: start_states={} (state,handles) choices={} sequences={} actions={}", v, names, depth, rich, st.start_states, st.handle_choices, st.sequences, st.actions));
